@@ -53,6 +53,10 @@ import ast
 import os
 
 GEN_FILE = os.path.join(common.LEAN_DIR, "FDAModel", "Generated", "ConcatLabels.lean")
+TRUSTED_EXTRA = [
+    "harness/c13.py `_concat_shape` / `lean_source`: syntax-only translation of the label arithmetic of IrregularArgvals.concatenate / "
+    "IrregularValues.concatenate into lean/FDAModel/Generated/ConcatLabels.lean",
+]
 TRANSLATOR = {"note": None}
 
 
@@ -172,13 +176,19 @@ end FDA.Generated.ConcatLabels
 
 def translate():
     """Regenerate `Generated/ConcatLabels.lean`.  POLICY: a source shape that is not recognised is not an
-    alarm — the last generated file is kept and the evidence says that the tie rests on the correspondence only."""
+    alarm — the reference translation beside the translator is used and the evidence says that the tie rests on the correspondence only."""
     rep = os.path.join(common.REPO, "FDApy", "representation")
     try:
         ka = _concat_shape(os.path.join(rep, "argvals.py"), "IrregularArgvals")
         kv = _concat_shape(os.path.join(rep, "values.py"), "IrregularValues")
     except (ValueError, SyntaxError, OSError, IndexError, AttributeError) as e:
+        # fall back on the reference translation kept beside the translator, not on whatever an earlier run left behind
         TRANSLATOR["note"] = f"translator: source shape not recognised, tie rests on the correspondence only ({e})"
+        print("note:", TRANSLATOR["note"])
+        ref = open(os.path.join(os.path.dirname(os.path.abspath(__file__)), "c13_concatlabels_reference.lean")).read()
+        if not os.path.exists(GEN_FILE) or open(GEN_FILE).read() != ref:
+            with open(GEN_FILE, "w") as fh:
+                fh.write(ref)
         return
     TRANSLATOR["note"] = f"translator: IrregularArgvals.concatenate = {ka}, IrregularValues.concatenate = {kv}; Generated/ConcatLabels.lean proved equal to concatImpl (C13.concat_source_tie)"
     src = lean_source(ka, kv)
